@@ -256,6 +256,57 @@ Theorem C03_src_reserved_used : forall (balance : bool) l r t k,
   src_reserved (rows_of l) r t (if balance then None else Some k) = Ok (used balance l r (day_of t) k).
 Proof. exact src_reserved_used_eq. Qed.
 
+(* ---- the tie to the source text: the writing side of the ledger and the day-by-day fill --------------------------
+   gen/SrcFill.v is produced on every run by harness/srcgen from the *current source text* of `_ResourceUsage.reserve /
+   .reserved` and of the two `__shift_by_resource_usage_and_calendar` methods (over exact rationals).  For every
+   configuration, ledger, resource, task, date and amount the translated fill loops are the model's [fwd_shift] /
+   [bwd_shift] (same rows in the same order, same date), hence whatever they append keeps every day within its capacity.
+   [qrows_of l]: the code's rows (reservation order, dated by midnights, rational units); [gau_of] / [nearest_of]: the
+   resource as the translated code sees it (capacity of the day of a datetime; the availability search of C17). *)
+From Coq Require Import QArith.
+From PJ Require Import Cal.Calendar gen.SrcFill Sched.SrcFillEquiv Sched.SrcFillInv.
+Open Scope Z_scope.
+
+Theorem C03_src_reserved_q : forall (balance : bool) l r t k,
+  src_qreserved (qrows_of l) r t (if balance then None else Some k) = Ok (inject_Z (used balance l r (day_of t) k)).
+Proof. exact src_qreserved_used_eq. Qed.
+
+Theorem C03_src_reserve : forall l r t k u,
+  src_qreserve (qrows_of l) r t k (inject_Z u)
+  = Ok (qrows_of ({| r_res := r; r_day := day_of t; r_task := k; r_units := u |} :: l), inject_Z u).
+Proof. exact src_qreserve_eq. Qed.
+
+Theorem C03_src_fwd_shift : forall cfg l r t s0 left, pos_rows l -> 0 <= left ->
+  src_fwd_shift (balance cfg) (nearest_of (cap cfg r) (h_search cfg)) (gau_of (cap cfg r)) r (qrows_of l) s0 t
+                (inject_Z left) (Z.of_nat (h_fill cfg))
+  = lift_shift (fwd_shift cfg l r t s0 left).
+Proof. exact src_fwd_shift_eq. Qed.
+
+Theorem C03_src_bwd_shift : forall cfg l r t e0 left, pos_rows l -> 0 <= left ->
+  src_bwd_shift (balance cfg) (nearest_of (cap cfg r) (h_search cfg)) (gau_of (cap cfg r)) r (qrows_of l) e0 t
+                (inject_Z left) (Z.of_nat (h_fill cfg))
+  = lift_shift (bwd_shift cfg l r t e0 left).
+Proof. exact src_bwd_shift_eq. Qed.
+
+(* the over-allocation clause for the translated source: a ledger within capacity stays within capacity *)
+Theorem C03_src_fwd_shift_keeps_invariant : forall cfg r t l s0 left rows' e,
+  LedgerProofs.ledger_ok (cap cfg) (balance cfg) l -> 0 < left ->
+  src_fwd_shift (balance cfg) (nearest_of (cap cfg r) (h_search cfg)) (gau_of (cap cfg r)) r (qrows_of l) s0 t
+                (inject_Z left) (Z.of_nat (h_fill cfg)) = Ok (rows', e) ->
+  exists new, rows' = qrows_of (new ++ l) /\ new <> []
+              /\ (forall x, In x new -> r_res x = r /\ r_task x = t /\ 0 < r_units x)
+              /\ LedgerProofs.ledger_ok (cap cfg) (balance cfg) (new ++ l).
+Proof. exact src_fwd_shift_keeps_invariant. Qed.
+
+Theorem C03_src_bwd_shift_keeps_invariant : forall cfg r t l e0 left rows' e,
+  LedgerProofs.ledger_ok (cap cfg) (balance cfg) l -> 0 < left ->
+  src_bwd_shift (balance cfg) (nearest_of (cap cfg r) (h_search cfg)) (gau_of (cap cfg r)) r (qrows_of l) e0 t
+                (inject_Z left) (Z.of_nat (h_fill cfg)) = Ok (rows', e) ->
+  exists new, rows' = qrows_of (new ++ l) /\ new <> []
+              /\ (forall x, In x new -> r_res x = r /\ r_task x = t /\ 0 < r_units x)
+              /\ LedgerProofs.ledger_ok (cap cfg) (balance cfg) (new ++ l).
+Proof. exact src_bwd_shift_keeps_invariant. Qed.
+
 Print Assumptions C03_forward.
 Print Assumptions C03_backward.
 Print Assumptions C03_oracle_meaning.
@@ -287,3 +338,9 @@ Print Assumptions C03_captie_example.
 Print Assumptions C03_src_reserved_all.
 Print Assumptions C03_src_reserved_task.
 Print Assumptions C03_src_reserved_used.
+Print Assumptions C03_src_reserved_q.
+Print Assumptions C03_src_reserve.
+Print Assumptions C03_src_fwd_shift.
+Print Assumptions C03_src_bwd_shift.
+Print Assumptions C03_src_fwd_shift_keeps_invariant.
+Print Assumptions C03_src_bwd_shift_keeps_invariant.
